@@ -17,7 +17,7 @@ structure St where
   types : Std.HashMap Nat Ty := {}
   names : Std.HashMap Nat B := {}
   stypes : Std.HashMap Nat Ty := {}
-  snames : Std.HashMap Nat (B × B) := {}
+  snames : Std.HashMap Nat (B × B × B) := {}
 
 def H : B → Nat := XXH3.xxh3
 
@@ -117,13 +117,24 @@ def serHex (t : Ty) (name : B) (v : Val) : String :=
   let s := t.ser H name v
   maskedHex s (trues hdr.length ++ t.encMask v hdr.length)
 
-def doSer3 (t : Ty) (vn wn : B) (v : Val) : String :=
+/-- `enum WrapE<A> { Held(u8, A), Empty }` of the harness -/
+def wrapTyE (a : Ty) : Ty :=
+  .adt { name := ascii "WrapE", isEnum := true, zero := false, deepAttr := false, reprs := [], alignAttr := 1, consts := [] }
+    (.cons (ascii "Held") (.cons (ascii "0") false (.prim (.int .u8)) (.cons (ascii "1") true a .nil))
+      (.cons (ascii "Empty") .nil .nil))
+
+def doSer3 (t : Ty) (vn wn en : B) (v : Val) : String :=
   let wv := Val.record [v, .bits 0xBEEF]
+  let ev := Val.variant 0 [.bits 7, v]
+  let eu := Val.variant 1 []
   let z := t.isZC
   "ser3 V:" ++ serHex (.vec t) vn v ++ " S:" ++ serHex (.sliceRef t) vn v ++
   " I:" ++ (if z then serHex (.serIter t) vn v else "-") ++
   " WV:" ++ serHex (wrapTy (.vec t)) wn wv ++ " WS:" ++ serHex (wrapTy (.sliceRef t)) wn wv ++
-  " WI:" ++ (if z then serHex (wrapTy (.serIter t)) wn wv else "-") ++ " intact=true"
+  " WI:" ++ (if z then serHex (wrapTy (.serIter t)) wn wv else "-") ++
+  " EV:" ++ serHex (wrapTyE (.vec t)) en ev ++ " ES:" ++ serHex (wrapTyE (.sliceRef t)) en ev ++
+  " EI:" ++ (if z then serHex (wrapTyE (.serIter t)) en ev else "-") ++
+  " EU:" ++ serHex (wrapTyE (.sliceRef t)) en eu ++ " EUV:" ++ serHex (wrapTyE (.vec t)) en eu ++ " intact=true"
 
 def doIter (t : Ty) (vn : B) (v : Val) (a : Nat) : String :=
   match v with
@@ -144,7 +155,7 @@ def parseWSpec (spec : String) : Option Nat × Bool :=
   (spec.splitOn ",").foldl (fun (acc : Option Nat × Bool) kv =>
     match kv.splitOn "=" with
     | ["k", v] => (v.toNat?, acc.2)
-    | ["ff", v] => (acc.1, v == "1")
+    | ["ff", v] => (acc.1, v != "0")       -- whatever the kind of error the failing flush reports
     | _ => acc) (none, false)
 
 def wfailLine (t : Ty) (name : B) (v : Val) (spec : String) : String :=
@@ -164,9 +175,9 @@ def step (st : St) (line : String) : St × Option String :=
       match i.toNat? with
       | some i => ({ st with names := st.names.insert i (unhex h.toList) }, none)
       | none => (st, some "bad-op")
-  | ["sname", i, a, b] =>
+  | ["sname", i, a, b, c] =>
       match i.toNat? with
-      | some i => ({ st with snames := st.snames.insert i (unhex a.toList, unhex b.toList) }, none)
+      | some i => ({ st with snames := st.snames.insert i (unhex a.toList, unhex b.toList, unhex c.toList) }, none)
       | none => (st, some "bad-op")
   | ["stype", i, ty] =>
       match i.toNat?, parseTy ty with
@@ -175,13 +186,13 @@ def step (st : St) (line : String) : St × Option String :=
   | ["ser3", i, val] =>
       match i.toNat?.bind (st.stypes[·]?), parseVal val with
       | some t, some v =>
-        let (vn, wn) := st.snames.getD i.toNat! ([], [])
-        if !(Ty.vec t).wt v then (st, some "illtyped") else (st, some (doSer3 t vn wn v))
+        let (vn, wn, en) := st.snames.getD i.toNat! ([], [], [])
+        if !(Ty.vec t).wt v then (st, some "illtyped") else (st, some (doSer3 t vn wn en v))
       | _, _ => (st, some "badval")
   | ["iter", i, val, a] =>
       match i.toNat?.bind (st.stypes[·]?), parseVal val, a.toNat? with
       | some t, some v, some a =>
-        let (vn, _) := st.snames.getD i.toNat! ([], [])
+        let (vn, _, _) := st.snames.getD i.toNat! ([], [], [])
         (st, some (doIter t vn v a))
       | _, _, _ => (st, some "badval")
   | ["type", i, ty] =>
@@ -305,7 +316,7 @@ def step (st : St) (line : String) : St × Option String :=
   | ["wfails", i, spec, val] =>
       match i.toNat?.bind (st.stypes[·]?), parseVal val with
       | some t, some v =>
-        let (vn, wn) := st.snames.getD i.toNat! ([], [])
+        let (vn, wn, _) := st.snames.getD i.toNat! ([], [], [])
         if !(Ty.vec t).wt v then (st, some "illtyped") else
         (st, some (wfailLine (.sliceRef t) vn v spec ++ " | " ++
                    wfailLine (wrapTy (.sliceRef t)) wn (.record [v, .bits 0xBEEF]) spec ++ " frees=0 intact=true"))
